@@ -2650,6 +2650,7 @@ func (s *Server) serveConnCounted(c net.Conn, countConcurrency bool) error {
 		connectionClose = connectionClose || s.DisableKeepalive || ctx.Request.Header.ConnectionClose()
 		// Likewise remember a HEAD request: after a timeout ctx is replaced by a fresh one without the request.
 		isHead := ctx.IsHead()
+		isHTTP11 := ctx.Request.Header.IsHTTP11()
 
 		if serverName != "" {
 			ctx.Response.Header.SetServer(serverName)
@@ -2709,7 +2710,7 @@ func (s *Server) serveConnCounted(c net.Conn, countConcurrency bool) error {
 			(s.CloseOnShutdown && s.stop.Load() == 1)
 		if connectionClose {
 			ctx.Response.Header.SetConnectionClose()
-		} else if !ctx.Request.Header.IsHTTP11() {
+		} else if !isHTTP11 {
 			// Set 'Connection: keep-alive' response header for HTTP/1.0 request.
 			// There is no need in setting this header for http/1.1, since in http/1.1
 			// connections are keep-alive by default.
